@@ -107,6 +107,26 @@ impl Operation for SetNameByLocator {
     const COST: u8 = 4;
 }
 
+/// `PopLocator` implements the Opcode Operation for `Opcode::PopLocator`
+///
+/// Operation:
+///  - Discards the binding locator at the top of the `binding_stack` of the current frame.
+#[derive(Debug, Clone, Copy)]
+pub(crate) struct PopLocator;
+
+impl PopLocator {
+    #[inline(always)]
+    pub(crate) fn operation((): (), context: &mut Context) {
+        context.vm.frame_mut().binding_stack.pop();
+    }
+}
+
+impl Operation for PopLocator {
+    const NAME: &'static str = "PopLocator";
+    const INSTRUCTION: &'static str = "INST - PopLocator";
+    const COST: u8 = 1;
+}
+
 /// Checks that the binding pointed by `locator` exists and is initialized.
 fn verify_initialized(locator: &BindingLocator, context: &mut Context) -> JsResult<()> {
     if !context.is_initialized_binding(locator)? {
